@@ -81,10 +81,10 @@ func c20a(c *Ctx) {
 			for _, r := range returnsOf(fn) {
 				v := c.term(fn, r.Results[0])
 				must := c.mustLits(fn, r.Block())
-				if v == "nil" && hasLit(must, "+(builtin:len("+f+") == 0)") {
+				if v == "nil" && hasLit(must, "-(0 < builtin:len("+f+"))") {
 					okNil = true
 				}
-				if v == f+"[builtin:len("+f+")-1]" && hasLit(must, "-(builtin:len("+f+") == 0)") {
+				if v == f+"[builtin:len("+f+")-1]" && hasLit(must, "+(0 < builtin:len("+f+"))") {
 					okTop = true
 				}
 			}
